@@ -400,11 +400,24 @@ def rule_r4(chk, prog):
         lim = expand_locals(lr, args[1]) if len(args) > 1 else None
         if res_t == 'resource.RLIMIT_AS':
             v = unparse(lim).replace(' ', '') if lim is not None else ''
-            ok = ('options.args().memout', True) in facts and v.startswith(
-                '(options.args().memout*1024*1024,')
+            # bytes per unit of --memout: constant factors at the limit
+            # itself times those applied where the option is post-processed
+            fac = None
+            if isinstance(lim, ast.Tuple) and lim.elts:
+                fac = _memout_factor(lim.elts[0])
+            wfac, wsites = _memout_write_factor(prog)
+            total = fac * wfac if fac is not None and wfac is not None \
+                else None
+            ok = ('options.args().memout', True) in facts and \
+                total == 1024 * 1024
             chk.check('C10.R4', lw, f'{kind.split(".")[1]}: {res_t} = '
                       f'{v[:50]}', ok, 'the memory limit is not memout MiB '
-                      'under the memout test', loc=m.loc(c), nontrivial=True)
+                      'under the memout test: --memout is documented in '
+                      f'megabytes, the limit set is memout x {total} bytes '
+                      f'(factor {fac} at the limit'
+                      + (f', factor {wfac} where the option value is '
+                         f'rewritten: {wsites}' if wsites else '') + ')',
+                      loc=m.loc(c), nontrivial=True)
         elif res_t == 'resource.RLIMIT_CPU':
             okv = isinstance(lim, ast.Tuple) and len(lim.elts) == 2 and \
                 unparse(lim.elts[0]) == unparse(lim.elts[1])
@@ -497,6 +510,65 @@ def rule_r4(chk, prog):
                   nontrivial=True)
     # the default is in place before the first candidate check: assignments
     # happen inside do_golden_runs, which dominates the reductions (R5)
+
+
+def _memout_factor(e):
+    """Product of the constant factors of ``<memout> * k1 * k2 ...``."""
+    if opt_read(e) == 'memout' or (isinstance(e, ast.Attribute)
+                                   and e.attr == 'memout'):
+        return 1
+    if isinstance(e, ast.BinOp) and isinstance(e.op, ast.Mult):
+        for a, b in ((e.left, e.right), (e.right, e.left)):
+            if isinstance(b, ast.Constant) and isinstance(
+                    b.value, int) and not isinstance(b.value, bool):
+                f = _memout_factor(a)
+                return None if f is None else f * b.value
+            if isinstance(b, ast.BinOp) and isinstance(
+                    b.op, (ast.Mult, ast.Pow, ast.LShift)):
+                try:
+                    k = eval(compile(ast.Expression(b), '<k>', 'eval'),
+                             {'__builtins__': {}}, {})
+                except Exception:
+                    continue
+                f = _memout_factor(a)
+                return None if f is None else f * k
+    return None
+
+
+def _memout_write_factor(prog):
+    """(product of constant factors, sites) over every store to the
+    ``memout`` attribute of the option namespace; None if a store is not a
+    rescaling of the option's own value."""
+    fac = 1
+    sites = []
+    for m in prog.pkg_modules():
+        if 'tests' in m.rel():
+            continue
+        for st in ast.walk(m.tree):
+            if isinstance(st, ast.Assign):
+                for t in st.targets:
+                    if isinstance(t, ast.Attribute) and t.attr == 'memout':
+                        f = _memout_factor(st.value)
+                        sites.append(m.loc(st))
+                        if f is None:
+                            return None, sites
+                        fac *= f
+            elif isinstance(st, ast.AugAssign) and isinstance(
+                    st.target, ast.Attribute) and st.target.attr == 'memout':
+                sites.append(m.loc(st))
+                if isinstance(st.op, ast.Mult) and isinstance(
+                        st.value, ast.Constant) and isinstance(
+                            st.value.value, int):
+                    fac *= st.value.value
+                else:
+                    try:
+                        fac *= eval(compile(ast.Expression(st.value), '<k>',
+                                            'eval'), {'__builtins__': {}},
+                                    {}) if isinstance(st.op, ast.Mult) \
+                            else None
+                    except Exception:
+                        return None, sites
+    return fac, sites
 
 
 def rule_r5(chk, prog):
@@ -640,6 +712,44 @@ def rule_r5(chk, prog):
     chk.floor('C10.R5', 'reduce calls in ddsmt_main', nred, 2)
 
 
+def rule_r6(chk, prog):
+    chk.rule('C10.R6', 'the exit with status 1 (golden run lacks the match '
+             'string, usage errors) is not intercepted: no __exit__ method '
+             'returns a true value, which would suppress SystemExit and '
+             'every other exception leaving its with-block')
+    n = 0
+    for m in prog.pkg_modules():
+        if 'tests' in m.rel():
+            continue
+        for q, f in m.funcs.items():
+            if q.split('.')[-1] != '__exit__' or '<locals>' in q:
+                continue
+            n += 1
+            bad = []
+            for r in walk_no_nested(f):
+                if not isinstance(r, ast.Return) or r.value is None:
+                    continue
+                v = r.value
+                if isinstance(v, ast.Constant):
+                    if v.value:
+                        bad.append(r)
+                    continue
+                raise AnalysisError(
+                    f'C10.R6: {m.loc(r)}: {m.name}.{q} returns the '
+                    f'non-constant "{unparse(v)}"; whether it suppresses '
+                    'exceptions is not decided')
+            chk.check('C10.R6', f'{m.name}.{q}', 'returns nothing true',
+                      not bad,
+                      f'"{unparse(bad[0]) if bad else ""}": a true result '
+                      'of __exit__ suppresses the exception that leaves the '
+                      'with-block - ddsmt_main runs inside "with '
+                      'Profiler(...)", so the sys.exit(1) of the golden-run '
+                      'check is swallowed and ddsmt goes on / ends with '
+                      'status 0', loc=m.loc(bad[0] if bad else f),
+                      nontrivial=True)
+    chk.floor('C10.R6', '__exit__ methods', n, 1)
+
+
 def run(tier):
     prog = Program()
     chk = Check(
@@ -662,6 +772,7 @@ def run(tier):
     chk.guard(rule_nullness, chk, prog)
     chk.guard(rule_r4, chk, prog)
     chk.guard(rule_r5, chk, prog)
+    chk.guard(rule_r6, chk, prog)
     extra = None
     if tier == 'thorough':
         from .. import selftest
